@@ -4,6 +4,7 @@ previous value of a target location (used by the composite theorems of C05 / C10
 -/
 import Gv.Proofs.Typing
 import Gv.Proofs.StructuralSound
+import Gv.Model.PlanCheckU
 
 namespace Gv.Typing
 open Gv Gv.Str Gv.Eval
@@ -28,17 +29,18 @@ mutual
         HasTyU p key sk tk → HasTyU p val sv tv → HasTyU p (.mapc tk tv key val) s t
     | structc {s t sfs tfs plans upd} : under p.conv.env s = .struct sfs → under p.conv.env t = .struct tfs →
         (fieldNames tfs.toList).Nodup →
-        HasFieldsU p plans sfs.toList tfs.toList → HasTyU p (.structc plans upd) s t
-  /-- one plan per target field, in declaration order: skipped, or fed by the same-named source field (with or without
-      a zero-value guard) -/
-  inductive HasFieldsU (p : Program) : FieldPlans → List (FieldInfo × Ty) → List (FieldInfo × Ty) → Prop
-    | nil {sfs} : HasFieldsU p .nil sfs []
-    | skip {sfs tf tty rest tfs} : HasFieldsU p rest sfs tfs →
-        HasFieldsU p (.cons (.skip tf.name) rest) sfs ((tf, tty) :: tfs)
-    | cons {sfs tf tty sf sty cv rest tfs b z} :
-        sfs.find? (fun (x : FieldInfo × Ty) => x.1.name == tf.name) = some (sf, sty) →
-        HasTyU p cv sty tty → HasFieldsU p rest sfs tfs →
-        HasFieldsU p (.cons (.mapped tf.name [tf.name] [false] false b cv z) rest) sfs ((tf, tty) :: tfs)
+        HasFieldsU p plans s tfs.toList → HasTyU p (.structc plans upd) s t
+  /-- one plan per target field, in declaration order: skipped, or fed by a source path that type-checks from the source
+      struct type `s` (with or without a zero-value guard); the conversion goes from the type of the handed value -/
+  inductive HasFieldsU (p : Program) : FieldPlans → Ty → List (FieldInfo × Ty) → Prop
+    | nil {s} : HasFieldsU p .nil s []
+    | skip {s tf tty rest tfs} : HasFieldsU p rest s tfs →
+        HasFieldsU p (.cons (.skip tf.name) rest) s ((tf, tty) :: tfs)
+    | cons {s tf tty path derefs guarded leafIsPtr leaf cv rest tfs z} :
+        PlanCheck.walkTy p.conv.env s path = some (leaf, derefs, guarded) →
+        leafIsPtr = (isPtr p.conv.env leaf).isSome →
+        HasTyU p cv (PlanCheck.fieldArgTy guarded leafIsPtr leaf) tty → HasFieldsU p rest s tfs →
+        HasFieldsU p (.cons (.mapped tf.name path derefs guarded leafIsPtr cv z) rest) s ((tf, tty) :: tfs)
 end
 
 /-- the constructor call of `default FUNC`: a custom function interpreted as a constructor, returning the target type or
@@ -201,5 +203,20 @@ theorem WT_struct_of_basics {env : TEnv} {fs : List (S × Val)} {t : Ty} {tfs : 
   obtain ⟨k, hk⟩ := hty (f, ty) (List.mem_of_find?_eq_some hf)
   rw [← hx, hr]
   exact .basic hk
+
+theorem WT_struct_one {env : TEnv} {t : Ty} {tfs : Fields} {nm : S} {x : Val} (ht : under env t = .struct tfs)
+    (h : ∀ f ty, tfs.toList.find? (fun (y : FieldInfo × Ty) => y.1.name == nm) = some (f, ty) → WT env x ty) :
+    WT env (.struct [(nm, x)]) t := by
+  refine .struct ht ?_
+  intro name y f ty hl hf
+  simp only [List.lookup] at hl
+  cases hn : (name == nm) with
+  | false => rw [hn] at hl; cases hl
+  | true =>
+    rw [hn] at hl
+    cases hl
+    have : name = nm := by simpa using hn
+    subst this
+    exact h f ty hf
 
 end Gv.Typing
